@@ -521,7 +521,7 @@ func scenarioSlowSeal() {
 	e.FM().VerifMaintenancePass(&sealWG, &suicideWG) // rotates A, its sealer parks
 	select {
 	case <-parked:
-	case <-time.After(20 * time.Second):
+	case <-time.After(180 * time.Second):
 		fmt.Println(`{"infra":"sealer did not park"}`)
 		os.Exit(3)
 	}
